@@ -170,7 +170,7 @@ def ob_mutate(name, tindex, kind, positions):
                 if kind == "sub":
                     claim = z3.Or(claim, equivalent(base, t, pos, orig_ch, ch))
                 cond = p.cond() if v is True else z3.And(p.cond(), v.e)
-                r, mdl = check(cond, z3.Not(claim))
+                r, mdl = check(cond, z3.Not(claim), timeout_ms=20000)
                 if r == "sat":
                     bad = ("verifies the original password", p, mdl)
                     break
@@ -184,7 +184,7 @@ def ob_mutate(name, tindex, kind, positions):
             cp = mdl.eval(ch, True).as_long() if mdl is not None else 0x41
             mutated = (t[:pos] + chr(cp) + (t[pos + 1:] if kind == "sub" else t[pos:]))
             internal = bad[0].startswith("raises")
-            key = "mutate:%s:%s" % (base.name, ("internal-error" if internal else "accepts-altered"))
+            key = "mutate:%s:%s" % (base.name, ("internal-error" if internal else "accepts-altered:" + classify(t, mutated)))
             results.append(violation("%s: %s of U+%04X at %d in %r -> %s" % (name, "substitution" if kind == "sub" else "insertion", cp, pos,
                                                                               t, bad[0]), key,
                                      {"module": "harness.c08", "func": "replay_mutant", "args": {"name": name, "orig": t, "mutated": mutated}},
@@ -196,6 +196,20 @@ def ob_mutate(name, tindex, kind, positions):
                           "re-encoding (%d paths)" % (name, tindex, len(t), "substitution" if kind == "sub" else "insertion", len(positions), npaths),
                           paths=npaths, name="%s[#%d,%s]" % (name, tindex, kind)))
     return results
+
+
+def classify(orig, mutated):
+    """class of an accepted alteration (used in finding keys, so that a different kind of acceptance is a new finding)"""
+    if mutated == orig + "\n":
+        return "trailing-newline"
+    if len(mutated) == len(orig) + 1 and mutated.count("=") == orig.count("=") + 1:
+        return "extra-base64-padding"
+    extra = [c for c in mutated if c not in orig]
+    if len(mutated) == len(orig) + 1 and extra and all(not (c.isascii() and (c.isalnum() or c in "./+=$-_,:{}|*!")) for c in extra):
+        return "foreign-character-ignored"
+    if len(mutated) == len(orig) + 1:
+        return "inserted-character"
+    return "substituted-character"
 
 
 def replay_mutant(name, orig, mutated):
@@ -266,7 +280,7 @@ def ob_concrete(names):
                         if label == "identify" and r not in (True, False):
                             bad.append((name, m, "identify -> %r" % (r,)))
                         if label == "verify" and r and (m if isinstance(m, str) else m.decode()) != t and not \
-                                (isinstance(m, str) and m.lower() == t.lower()):
+                                (isinstance(m, str) and m.lower() == t.lower()) and not _by_design(name, t, m):
                             bad.append((name, m, "verifies although altered"))
                     except (ValueError, TypeError):
                         if label == "identify":
@@ -276,11 +290,28 @@ def ob_concrete(names):
     if bad:
         nm, m, what = bad[0]
         t = templates(nm)[1][0]
-        return violation("%s: %r %s (%d such cases)" % (nm, m, what, len(bad)), "mutate:%s:concrete" % nm,
+        ms = m if isinstance(m, str) else m.decode("latin-1")
+        base_nm = getattr(templates(nm)[0], "wrapped", templates(nm)[0]).name
+        key = "mutate:%s:%s" % (base_nm, "internal-error" if "raises" in what else "accepts-altered:" + classify(t, ms))
+        return violation("%s: %r %s (%d such cases)" % (nm, m, what, len(bad)), key,
                          {"module": "harness.c08", "func": "replay_mutant",
                           "args": {"name": nm, "orig": t, "mutated": m if isinstance(m, str) else m.decode("latin-1")}})
     return ok("%d hashers: %d truncations/deletions/duplications/affixes handled cleanly, none verifies" % (len(names), n), paths=n,
               verdict="finite-enumeration", nontrivial=False)
+
+
+def _by_design(name, orig, mutated):
+    """documented behaviour that is not an alteration of what verify() consults: scram stores one digest per algorithm and
+    verify() (full=False) checks the strongest one only, so edits confined to the other digests are outside its contract"""
+    if name == "scram" and isinstance(mutated, str):
+        try:
+            from passlib.hash import scram
+            a, b = scram.from_string(orig), scram.from_string(mutated)
+            best = [alg for alg in ("sha-512", "sha-384", "sha-256", "sha-224", "sha-1") if alg in a.checksum and alg in b.checksum]
+            return bool(best) and (a.salt, a.rounds) == (b.salt, b.rounds) and a.checksum[best[0]] == b.checksum[best[0]]
+        except Exception:
+            return False
+    return False
 
 
 def positions_for(t, tier, seed):
